@@ -752,6 +752,9 @@ def site_trouble(site, cfg):
             for e in s:
                 if k not in e:
                     return True         # a record lacks an identity key in force
+                if kind(e[k]) != "L":
+                    return True         # an identity value is a container (the guard kguard asks for a scalar):
+                                        # records are matched by exact equality of that value
                 vals.append(e[k])
             for i in range(len(vals)):
                 for j in range(i + 1, len(vals)):
@@ -764,7 +767,8 @@ def aoh_identity_trouble(case):
     """In the failing run some sequence pair is compared in key / deep mode
     although a record lacks the identity key in force there (configured through
     [keys], or the first key of the first right-hand record), two records of
-    one list share an identity value, or an element is not a mapping."""
+    one list share an identity value, an identity value is not a scalar, or an
+    element is not a mapping."""
     combo = failing_combo(case)
     if combo is None:
         return False
@@ -1055,6 +1059,7 @@ def corpus_chunks():
                  ("{a: {}}", "{a: []}"), ("{}", "[]"), ("{a: {}}", "{a: null}"), ("", "{}"),
                  ("a: !x b", "a: !x b"), ("[{a: 1, b: 2}]", "[{b: 2, a: 1}]"), ("a: null", "a: {b: 1}"),
                  ("[{a: 1}, {b: 2}]", "[{a: 1}, {b: 2}]"), ("[{id: 1, v: a}, {id: 1, v: b}]", "[{id: 1, v: b}, {id: 1, v: a}]"),
+                 ("[{w: [{v: 1}, {v: 2}]}]", "[{w: [{v: 2}, {v: 1}]}]"),
                  ("{'': 1}", "{'': 2}"), ("{'/x': 1}", "{'/x': 2}"), ("{1: a}", "{true: b}"), ("!a {x: 1}", "!b {x: 1}"),
                  ("[!a {x: 1}]", "[!b {x: 1}]"), ("[[1, 2]]", "[[2, 1]]"), ("[1, [2, 3]]", "[[2, 3], 1]"),
                  ("!!set {a, b}", "!!set {b, c}"), ("x: !!set {a}", "x: [a]"), ("[1, 1]", "[1]"), ("2001-01-01", "2001-01-01"),
